@@ -13,5 +13,5 @@ CONSTANTS
   AllowBogus = FALSE
 INVARIANTS TypeOK RetireAtMostOnce AnswerIsOwn AtMostOneResponse DoneOnlyWhenIdle CloseOnlyWhenDone
   NoHandlerAfterClose NoInternalPanic OutgoingAreUnretired IncomingCounts CloserClosedOnlyWhenShuttingDown
-  HandlerRunningIffGoroutine
+  HandlerRunningIffGoroutine SlotHeldByWriter
 PROPERTIES DoneStable Retired CloseReturns
